@@ -422,12 +422,40 @@ struct Out {
   int finished = 0;  // Finish() reached
   long allocs = 0;   // operator new calls between Begin() and Finish()
   int shared_bad = 0;  // shared slots whose value is no longer the one that was set (moved-from, torn, wrong)
+  // the other consumer attached to a shared source next to the program's own chain
+  int sib_calls = 0, sib_tag = 0, sib_state = -9, sib_code = 0;
+  int sib_ready = -1, sib_fstate = -9, sib_fcode = 0;
 };
 extern Out gout;
 extern long alloc_mark;
 
 inline void Begin() {
   alloc_mark = gc.news;
+}
+
+// SharedFutureOn::Subscribe(f) hides the Subscribe(e, f) of its base class
+inline const yaclib::SharedFutureBase<Tracked, MyError>& Base(const yaclib::SharedFutureBase<Tracked, MyError>& s) {
+  return s;
+}
+
+inline void EnterSib(Dig d) {
+  if (g.cur_step_shm != nullptr) {
+    *g.cur_step_shm = 90;
+  }
+  gout.sib_calls++;
+  gout.sib_tag = g.tag;
+  gout.sib_state = d.state;
+  gout.sib_code = d.code;
+}
+template <typename F>
+void SibFinal(F&& f) {
+  gout.sib_ready = f.Valid() && f.Ready() ? 1 : 0;
+  if (gout.sib_ready != 0) {
+    auto r = std::move(f).Get();
+    Dig d = D(r);
+    gout.sib_fstate = d.state;
+    gout.sib_fcode = d.code;
+  }
 }
 
 // after quiescence every shared slot must still hold exactly what was set, however often it was flattened
@@ -476,9 +504,10 @@ using ProgFn = void (*)();
 struct ProgEntry {
   int id;
   ProgFn fn;
+  int flags;  // 1: only the order-free rejection patterns (none / everything) are meaningful
 };
 struct Reg {
-  Reg(int id, ProgFn fn);
+  Reg(int id, ProgFn fn, int flags = 0);
 };
 
 }  // namespace pg
